@@ -45,6 +45,14 @@ PROPERTIES = {
         "level_note": "Assumed: core::fmt::Formatter as a ghost sink; console::measure_text_width / str::len / str::get uninterpreted with their meaning fixed on printable ASCII only (columns == chars == bytes) and cols <= bytes in general. wide_msg (WideElement::expand) is covered with C13's unit, not here.",
         "assumptions": ["R13: Display::fmt verified as an inherent method"],
     },
+    "C15": {
+        "units": ["c15_formatters"],
+        "level": "proof",
+        "explanation": "HumanCount::fmt and FormattedDuration::fmt extracted from src/format.rs and verified: the comma loop writes exactly group3(dec(x)) for every u64 (group3 is defined from the right, independently of the left-to-right loop; the connection is the inductive lemma emit_is_group3), FormattedDuration writes [Dd ]HH:MM:SS of the whole seconds for every Duration; no subtraction underflows.",
+        "level_text": "Deductive proof (Verus) over all u64 / Duration values with an inductive loop invariant and an induction over the digit string; what core::fmt prints for an integer argument is an assumed contract.",
+        "level_note": "Assumed: `{}`/to_string of an unsigned integer is the canonical decimal string, `{:02}` zero-pads to two digits; Formatter is a ghost sink. HumanBytes/BinaryBytes/DecimalBytes: only the body shape is covered (see DESIGN: prefix choice and two-decimal float printing live in number_prefix and core::fmt). HumanFloatCount and HumanDuration: see the units listed in the evidence.",
+        "assumptions": ["R7 write! translation, R3 chars().enumerate() as an index loop over the materialised characters"],
+    },
     "C14": {
         "units": ["c14_style"],
         "level": "proof",
